@@ -205,21 +205,25 @@ func min(rawNums ...vals.Num) (vals.Num, error) {
 	}
 }
 
-func pow(base, exp vals.Num) vals.Num {
+func pow(base, exp vals.Num) (vals.Num, error) {
 	if isExact(base) && isExactInt(exp) {
 		// Produce exact result
+		if base == 0 && vals.PromoteToBigInt(exp).Sign() < 0 {
+			// A negative power of exact 0 is a division by exact 0.
+			return nil, eval.ErrDivideByZero
+		}
 		switch exp {
 		case 0:
-			return 1
+			return 1, nil
 		case 1:
-			return base
+			return base, nil
 		case -1:
-			return new(big.Rat).Inv(vals.PromoteToBigRat(base))
+			return new(big.Rat).Inv(vals.PromoteToBigRat(base)), nil
 		}
 		exp := vals.PromoteToBigInt(exp)
 		if isExactInt(base) && exp.Sign() > 0 {
 			base := vals.PromoteToBigInt(base)
-			return new(big.Int).Exp(base, exp, nil)
+			return new(big.Int).Exp(base, exp, nil), nil
 		}
 		base := vals.PromoteToBigRat(base)
 		if exp.Sign() < 0 {
@@ -228,13 +232,13 @@ func pow(base, exp vals.Num) vals.Num {
 		}
 		return new(big.Rat).SetFrac(
 			new(big.Int).Exp(base.Num(), exp, nil),
-			new(big.Int).Exp(base.Denom(), exp, nil))
+			new(big.Int).Exp(base.Denom(), exp, nil)), nil
 	}
 
 	// Produce inexact result
 	basef := vals.ConvertToFloat64(base)
 	expf := vals.ConvertToFloat64(exp)
-	return math.Pow(basef, expf)
+	return math.Pow(basef, expf), nil
 }
 
 func isExact(n vals.Num) bool {
